@@ -13,6 +13,11 @@ def main():
 
         group_main()
         return 0
+    if len(sys.argv) > 1 and sys.argv[1] == "_resume":
+        from sim.resume import main as resume_main
+
+        resume_main()
+        return 0
     ap = argparse.ArgumentParser()
     ap.add_argument("prop")
     ap.add_argument("--tier", default=os.environ.get("VERIF_TIER", "quick"), choices=["quick", "thorough"])
